@@ -19,7 +19,6 @@ import (
 	"github.com/synnaxlabs/synnax/pkg/distribution/node"
 	"github.com/synnaxlabs/synnax/pkg/distribution/ontology"
 	"github.com/synnaxlabs/synnax/pkg/distribution/proxy"
-	"github.com/synnaxlabs/synnax/pkg/storage/ts"
 	"github.com/synnaxlabs/x/errors"
 	"github.com/synnaxlabs/x/gorp"
 	"github.com/synnaxlabs/x/query"
@@ -442,7 +441,6 @@ func (s *Service) deleteOverwritten(
 		return errors.Skip(err, query.ErrNotFound)
 	}
 	keysToDelete := make(Keys, 0, len(existing))
-	storageToDelete := make([]ts.ChannelKey, 0, len(existing))
 	for _, ex := range existing {
 		ch, i, found := lo.FindIndexOf(*channels, func(ch Channel) bool {
 			return ch.Name == ex.Name && ch.Key() != ex.Key()
@@ -455,16 +453,13 @@ func (s *Service) deleteOverwritten(
 			continue
 		}
 		keysToDelete = append(keysToDelete, ex.Key())
-		storageToDelete = append(storageToDelete, ex.Storage().Key)
 	}
-	if len(keysToDelete) > 0 {
-		if err := s.table.NewDelete().
-			Where(gorp.MatchKeys[Key, Channel](keysToDelete...)).
-			Exec(ctx, tx); err != nil {
-			return err
-		}
+	if len(keysToDelete) == 0 {
+		return nil
 	}
-	return s.cfg.TSChannel.DeleteChannels(storageToDelete)
+	// The overwritten channels may be leased to other nodes. The deletion is routed like
+	// any other delete so that each leaseholder removes the channel from its own engine.
+	return s.delete(ctx, tx, keysToDelete, true)
 }
 
 func (s *Service) createGateway(
